@@ -193,6 +193,9 @@ class AquaCropModel:
         Initialise all model variables
         """
 
+        # a new run starts with unprocessed (array) outputs
+        self.__steps_are_finished = False
+
         # Initialize ClockStruct object
         self._clock_struct = read_clock_parameters(
             self.sim_start_time, self.sim_end_time, self.off_season
